@@ -528,6 +528,32 @@ func main() {
 				}
 				fmt.Println("extract: wrote", path)
 			}
+			// functions and call scripts go to a module of their own (`<Pkg>Fns`), imported only by the tie theorems
+			// in BV/Props/Gen*.lean, so that an edit of such a function re-checks those theorems and nothing else
+			_, hasF := wantedFuncs[p]
+			_, hasS := wantedScripts[p]
+			if hasF || hasS {
+				var fb strings.Builder
+				fmt.Fprintf(&fb, "-- GENERATED by /verif/go/cmd/extract from /repo/%s — do not edit\nimport BV.Gen.%s\nnamespace BV.Gen.%s\n\n", p, ln, ln)
+				if w, ok := wantedFuncs[p]; ok {
+					fb.WriteString("/-! ### straight-line functions, translated statement by statement -/\n\n")
+					fb.WriteString(translateFuncs(files, info, w))
+				}
+				if w, ok := wantedScripts[p]; ok {
+					fb.WriteString("/-! ### call scripts: the argument lists of straight sequences of calls -/\n\n")
+					fb.WriteString(translateScripts(files, info, w))
+				}
+				fmt.Fprintf(&fb, "end BV.Gen.%s\n", ln)
+				fpath := filepath.Join(outDir, ln+"Fns.lean")
+				oldf, _ := os.ReadFile(fpath)
+				if string(oldf) != fb.String() {
+					if err := os.WriteFile(fpath, []byte(fb.String()), 0o644); err != nil {
+						fmt.Fprintln(os.Stderr, err)
+						status = 1
+					}
+					fmt.Println("extract: wrote", fpath)
+				}
+			}
 			all = append(all, ln)
 		}
 	}
